@@ -250,6 +250,8 @@ def main(argv):
     print(f"[{prop} {tier} seed={seed}] evaluations={evaluations} "
           f"distinct_nontrivial={n_nontrivial} wall={wall:.1f}s "
           f"known={len(known_seen)} new={len(new)} excluded_shards={len(excluded)}")
+    for e in excluded[:4]:
+        print(f"  excluded shard {e['shard']}: {e['why'][-400:]}")
     if os.environ.get('VERIF_VERBOSE'):
         print(json.dumps(counters, indent=1, sort_keys=True))
     if new:
